@@ -226,6 +226,9 @@ where
     ) -> Result<(), MqttError> {
         match packet {
             RxPacket::Publish(publish) => {
+                let qos = publish.qos;
+                let maybe_packet_id = publish.packet_identifier;
+
                 if let Some(subscription_identifier) =
                     publish
                         .subscription_identifier
@@ -233,9 +236,6 @@ where
                             NonZero::from(subscription_identifier).get().value() as usize
                         })
                 {
-                    let qos = publish.qos;
-                    let maybe_packet_id = publish.packet_identifier;
-
                     if let Some((_, subscription)) =
                         utils::linear_search_by_key(&session.subscriptions, subscription_identifier)
                             .map(|pos| &mut session.subscriptions[pos])
@@ -250,13 +250,14 @@ where
                             .and_then(|pos| session.subscriptions.remove(pos));
                         }
                     }
+                }
 
-                    if let Some(packet_id) = maybe_packet_id {
-                        match qos {
-                            QoS::AtLeastOnce => Self::ack::<PubackReason>(tx, packet_id).await?,
-                            QoS::ExactlyOnce => Self::ack::<PubrecReason>(tx, packet_id).await?,
-                            _ => unreachable!("No acknowledgement for QoS==0."),
-                        }
+                // Acknowledged whether or not anybody listens.
+                if let Some(packet_id) = maybe_packet_id {
+                    match qos {
+                        QoS::AtLeastOnce => Self::ack::<PubackReason>(tx, packet_id).await?,
+                        QoS::ExactlyOnce => Self::ack::<PubrecReason>(tx, packet_id).await?,
+                        _ => unreachable!("No acknowledgement for QoS==0."),
                     }
                 }
             }
